@@ -285,7 +285,7 @@ CLAIMED = {
         "regular files, directories, FIFOs, sockets, symlinks (to a secret file, to a directory, dangling) and file-as-parent paths, then random "
         "batches of 0..64 items with 5 flag words and MkdirAll; result classes per index vs the model evaluated in Coq; identity (dev, inode) of "
         "every returned file vs a re-open of the same path, access mode, close-on-exec, the secret untouched, elapsed time; Symlink and Delete "
-        "outcomes vs the state; 150 (thorough 1500) rounds of 250-item create/read-back batches on one environment.",
+        "outcomes vs the state; 500 (thorough 3000) rounds of 250-item create/read-back batches on one environment.",
    note="Trusted: Coq kernel + vm_compute; the per-item facts (lstat kind, success of mkdir/open) enter the model as data derived by the driver from "
         "the planted state (validated by the kinds probe after each history); os.* semantics; gob/socket transport is C19's subject.",
    technique="Coq proof (induction over the batch) + in-Coq differential evaluation against a real container with planted file-system states",
